@@ -6,13 +6,16 @@ pair.ToBeHashed.  Core Lean only.
 The hash is a parameter (`Cfg.H`, `Cfg.d` = `hash.Size()`).  Array elements and the elements
 presented to Verify are given by their hash pre-image `HashRep(e) = hashid ‖ data`.
 
-Two source facts are parameters of the model and are determined from the CURRENT tree on every run
+Three source facts are parameters of the model and are determined from the CURRENT tree on every run
 (harness `TestVerifC37Facts`, observed on the real functions, not grepped):
  * `fixedOff`   – `pair.ToBeHashed`: `false` = `copy(buf[len(p.l):], p.r)` (right child written
                   where the left child ENDS), `true` = `copy(buf[p.hashDigestSize:], p.r)`;
  * `checkDepth` – `verifyPath`: `true` = after `inspectRoot` succeeded, rejects with
                   ErrUnexpectedTreeDepth when the number of levels walked differs from
                   `Proof.TreeDepth`; `false` = the field is never compared with the walk.
+ * `checkHash`  – `Verify`: `true` = a proof whose `HashFactory` fails `Validate()` is rejected
+                  (protocol.ErrInvalidObject) right after the nil check; `false` = it is used as is
+                  (`invalidHash`: every digest is the empty slice).
 
 Not modelled: `proof == nil` (pointer), `Array.Marshal` errors, the worker pool (the layer is a pure
 function of the layer below), msgpack encodings, `uint8` truncation of the depth (≤ 64 levels).
@@ -26,6 +29,11 @@ structure Cfg where
   d : Nat
   fixedOff : Bool
   checkDepth : Bool
+  /-- `Proof.HashFactory.Validate() == nil`.  An invalid factory yields `invalidHash`: `Size() = 0`,
+  `Sum` = nil, i.e. `H = fun _ => []`, `d = 0` (the driver instantiates exactly that). -/
+  hashValid : Bool
+  /-- `Verify`: `true` = rejects a proof whose HashFactory is not valid (third source fact) -/
+  checkHash : Bool
 
 /-- protocol.MerkleArrayNode = "MA" -/
 def nodeTag : Bytes := [77, 65]
@@ -214,7 +222,7 @@ structure Item where
 deriving DecidableEq, Repr
 
 inductive VRes
-  | ok | rootMismatch | posOutOfBound | nonEmptyProof | noHints | unexpectedDepth | panic | fuel
+  | ok | rootMismatch | posOutOfBound | nonEmptyProof | noHints | unexpectedDepth | invalidHash | panic | fuel
 deriving DecidableEq, Repr
 
 /-- the node `up` computes for the item at `pos` with hash `h` and sibling hash `sib` -/
@@ -277,7 +285,8 @@ def sortItems : List Item → List Item
 
 /-- `Verify` (elems: the Go map as a list of `(position, pre-image)` with distinct positions) -/
 def verify (c : Cfg) (root : Bytes) (elems : List (Nat × Bytes)) (pf : Proof) : VRes :=
-  if elems = [] then (if pf.path = [] then .ok else .nonEmptyProof)
+  if c.checkHash = true ∧ c.hashValid = false then .invalidHash
+  else if elems = [] then (if pf.path = [] then .ok else .nonEmptyProof)
   else if elems.any (fun ie => posBound pf.depth ≤ ie.1) then .posOutOfBound
   else
     match verifyLoop c (pf.path.length + elems.length) 0
